@@ -140,7 +140,128 @@ def _inline_explaining(fn) -> None:
     rec(fn)
 
 
-def canonicalise(tree: ast.AST) -> ast.AST:
+_LOCALS = None
+
+
+def _known_locals(rel: str, cls: str, name: str):
+    global _LOCALS
+    if _LOCALS is None:
+        import json
+        import os
+        p = os.path.join(os.path.dirname(os.path.abspath(__file__)), "locals_inventory.json")
+        _LOCALS = json.load(open(p)) if os.path.exists(p) else {}
+    return _LOCALS.get("%s:%s.%s" % (rel, cls, name))
+
+
+def _LOCALS_get(key):
+    _known_locals("", "", "")
+    return _LOCALS.get(key)
+
+
+def _shape_of(v):
+    import copy
+    names = {}
+
+    class G(ast.NodeTransformer):
+        def visit_Name(self, n):
+            if n.id == "self":
+                return n
+            names.setdefault(n.id, "v%d" % len(names))
+            return ast.copy_location(ast.Name(id=names[n.id], ctx=n.ctx), n)
+    return ast.unparse(G().visit(copy.deepcopy(v)))
+
+
+def _inline_new_aliases(fn, known) -> None:
+    """A local that is NOT one of the method's pinned locals, is assigned exactly once, from a call-free attribute / subscript chain, and is only read afterwards, is
+    a hoisted alias (`side_state = ent[side]`): its uses are read as the chain, unless the function stores to a prefix of that chain (the slot may be replaced)."""
+    import copy
+    stores = {}
+    for x in ast.walk(fn):
+        if isinstance(x, ast.Name) and isinstance(x.ctx, (ast.Store, ast.Del)):
+            stores[x.id] = stores.get(x.id, 0) + 1
+    params = {a.arg for a in fn.args.args + fn.args.kwonlyargs + fn.args.posonlyargs}
+    stored_chains = {ast.unparse(t) for x in ast.walk(fn) if isinstance(x, (ast.Assign, ast.AugAssign, ast.Delete))
+                     for t in (x.targets if isinstance(x, (ast.Assign, ast.Delete)) else [x.target]) if isinstance(t, (ast.Subscript, ast.Attribute))}
+    cands = {}
+    for st in ast.walk(fn):
+        if isinstance(st, ast.Assign) and len(st.targets) == 1 and isinstance(st.targets[0], ast.Name):
+            nm = st.targets[0].id
+            v = st.value
+            if nm in params or stores.get(nm) != 1 or isinstance(v, (ast.Name, ast.Constant)):
+                continue
+            if _shape_of(v) in known:
+                continue        # the pinned method already keeps a chain of this shape in a local: its rules know it by that local
+            if not all(isinstance(x, (ast.Attribute, ast.Subscript, ast.Name, ast.Load, ast.Constant)) for x in ast.walk(v)):
+                continue
+            roots = {x.id for x in ast.walk(v) if isinstance(x, ast.Name)}
+            if any(stores.get(r_, 0) > (0 if r_ in params else 1) for r_ in roots if r_ != "self"):
+                continue        # a root of the chain is reassigned
+            chain = ast.unparse(v)
+            if any(chain == sc or chain.startswith(sc + "[") or chain.startswith(sc + ".") for sc in stored_chains):
+                continue        # the slot itself (or a prefix of it) is stored to in this function
+            cands[nm] = (st, v)
+    if not cands:
+        return
+
+    class R(ast.NodeTransformer):
+        def visit_Name(self, n):
+            if isinstance(n.ctx, ast.Load) and n.id in cands:
+                return ast.copy_location(copy.deepcopy(cands[n.id][1]), n)
+            return n
+
+        def visit_Assign(self, n):
+            if any(n is st for (st, _v) in cands.values()):
+                return None
+            return self.generic_visit(n)
+    R().visit(fn)
+    for node in ast.walk(fn):
+        for field in ("body", "orelse", "finalbody"):
+            v = getattr(node, field, None)
+            if isinstance(v, list) and not v and field == "body":
+                setattr(node, field, [ast.Pass()])
+
+
+def _inline_new_constants(tree: ast.Module, known) -> None:
+    """a module-level `NAME = <literal>` that the pinned module does not have is a named magic number: its uses are read as the literal"""
+    consts = {}
+    for st in tree.body:
+        if isinstance(st, (ast.Assign, ast.AnnAssign)) and getattr(st, "value", None) is not None and isinstance(st.value, ast.Constant) \
+                and isinstance(st.value.value, (int, float, str)) and not isinstance(st.value.value, bool):
+            tg = st.targets[0] if isinstance(st, ast.Assign) else st.target
+            if isinstance(tg, ast.Name) and tg.id not in known:
+                consts[tg.id] = st.value
+    if not consts:
+        return
+    # not when something rebinds the name
+    rebound = {x.id for x in ast.walk(tree) if isinstance(x, ast.Name) and isinstance(x.ctx, ast.Store)}
+    counts = {}
+    for st in tree.body:
+        if isinstance(st, (ast.Assign, ast.AnnAssign)):
+            tg = st.targets[0] if isinstance(st, ast.Assign) else st.target
+            if isinstance(tg, ast.Name):
+                counts[tg.id] = counts.get(tg.id, 0) + 1
+
+    class R(ast.NodeTransformer):
+        def visit_Name(self, n):
+            if isinstance(n.ctx, ast.Load) and n.id in consts and counts.get(n.id) == 1:
+                return ast.copy_location(ast.Constant(value=consts[n.id].value), n)
+            return n
+    for node in tree.body:
+        if isinstance(node, (ast.FunctionDef, ast.AsyncFunctionDef, ast.ClassDef)):
+            R().visit(node)
+
+
+def canonicalise(tree: ast.AST, rel: str = None) -> ast.AST:
+    if rel is not None and isinstance(tree, ast.Module):
+        km = _LOCALS_get("%s:<module>" % rel)
+        if km is not None:
+            _inline_new_constants(tree, set(km))
+    if rel is not None:
+        for cls in [x for x in ast.walk(tree) if isinstance(x, ast.ClassDef)]:
+            for fn in [m for m in cls.body if isinstance(m, (ast.FunctionDef, ast.AsyncFunctionDef))]:
+                known = _known_locals(rel, cls.name, fn.name)
+                if known is not None:
+                    _inline_new_aliases(fn, set(known))
     for fn in [x for x in ast.walk(tree) if isinstance(x, (ast.FunctionDef, ast.AsyncFunctionDef))]:
         _inline_explaining(fn)
     return Canon().visit(tree)
